@@ -20,11 +20,20 @@ RULE = ("circular problems on 24-45 bp sequences with whole-sequence and located
 PATTERNS = ["GGC", "AAAAAA", "GAATTC", "CGTCTC", "ACG", "TATA"]
 
 
-def wrap_occ(seq, pat):
-    """occurrences of pat (either strand) in the circular sequence, as start positions"""
+def wrap_occ(seq, pat, strand=0):
+    """occurrences of pat in the circular sequence, as start positions (strand 0: either strand,
+    1: as written, -1: reverse complement)"""
     k = len(pat)
     ext = seq + seq[:k - 1]
-    return [i for i in range(len(seq)) if ext[i:i + k] == pat or ext[i:i + k] == rcs(pat)]
+    return [i for i in range(len(seq)) if (strand != -1 and ext[i:i + k] == pat) or (strand != 1 and ext[i:i + k] == rcs(pat))]
+
+
+def whole(kwd, n):
+    """(is the specification's location the whole sequence?, its strand)"""
+    loc = kwd.get("location")
+    if loc is None:
+        return True, 0
+    return (loc[0], loc[1]) == (0, n), loc[2]
 
 
 def gen_circular(rng):
@@ -35,7 +44,8 @@ def gen_circular(rng):
         r = rng.random()
         if r < 0.55:
             p = rng.choice(PATTERNS)
-            cs.append(("AvoidPattern", kw(pattern=p, location=rng.choice([None, None, rloc(rng, n, minlen=len(p))]))))
+            cs.append(("AvoidPattern", kw(pattern=p, location=rng.choice([None, None, rloc(rng, n, minlen=len(p)),
+                                                                             (0, n, 1), (0, n, -1)]))))
             if rng.random() < 0.6:      # seed an occurrence across the origin
                 w = p if rng.random() < 0.5 else rcs(p)
                 cut = rng.randint(1, len(w) - 1)
@@ -111,9 +121,9 @@ def impl_case(case):
             bad = []
             for d in p["constraints"]:
                 kwd = dict(d[1])
-                if d[0] == "AvoidPattern" and kwd["location"] is None and set(kwd["pattern"]) <= set("ACGT"):
-                    if wrap_occ(s, kwd["pattern"]):
-                        bad.append("pattern %s occurs in the circular sequence" % kwd["pattern"])
+                if d[0] == "AvoidPattern" and whole(kwd, len(s))[0] and set(kwd["pattern"]) <= set("ACGT"):
+                    if wrap_occ(s, kwd["pattern"], whole(kwd, len(s))[1]):
+                        bad.append("pattern %s occurs in the circular sequence (strand %s)" % (kwd["pattern"], whole(kwd, len(s))[1]))
                 if d[0] == "EnforceGCContent" and kwd["location"] is None:
                     w = kwd["window"]
                     ext = s + s[:w - 1]
